@@ -104,6 +104,26 @@ static void mutate(vh_rng *r, int t, vh_sb *out)
     while (dict_tok[t][ntok]) ++ntok;
     vh_sb_reset(out); vh_sb_write(out, s->s, s->n);
     if (vh_chance(r, 0.03)) return;                       /* the seed itself */
+    if (t == T_CONFIG && vh_chance(r, 0.2)) {
+        /* a well-formed configuration whose signal-processing numbers sit on the boundaries of the relations between them
+         * (window length x sample rate against the FFT size and the frame shift, cepstra against filters, filter edges against
+         * the Nyquist frequency): the values individually look harmless */
+        static const int rates[] = { 8000, 11025, 16000, 16000, 22050, 44100, 48000 }; static const double dl[] = { -1, -0.6, -0.5, -0.4, 0, 0.4, 0.5, 0.6, 1 };
+        int sr = VH_PICK(r, rates), fftk = vh_range(r, 6, 12), nfft = vh_chance(r, 0.5) ? 0 : (1 << fftk), frate = VH_PICK(r, ((int[]){ 100, 50, 200, 1, sr, sr / 2, sr / 2 + 1, 105, 32767 }));
+        int nfilt = VH_PICK(r, ((int[]){ 1, 2, 13, 20, 40, 255, 256 })), ncep = vh_chance(r, 0.5) ? 13 : nfilt + vh_range(r, -1, 1);
+        double wl = ((double)(vh_chance(r, 0.6) ? (1 << fftk) : vh_chance(r, 0.5) ? (sr / (frate > 0 ? frate : 1)) : 410) + VH_PICK(r, dl)) / sr;
+        double upper = vh_chance(r, 0.5) ? sr / 2.0 + VH_PICK(r, dl) * 2 : 6855.4976, lower = vh_chance(r, 0.7) ? 133.33334 : vh_chance(r, 0.5) ? 0.0 : upper + VH_PICK(r, dl);
+        vh_sb_reset(out);
+        vh_sb_printf(out, "{\"samprate\": %d, \"wlen\": %.9g, \"frate\": %d, \"nfft\": %d, \"nfilt\": %d, \"ncep\": %d, \"upperf\": %.9g, \"lowerf\": %.9g", sr, wl, frate, nfft, nfilt, ncep, upper, lower);
+        if (vh_chance(r, 0.3)) vh_sb_printf(out, ", \"transform\": \"%s\"", VH_PICK(r, ((const char *[]){ "dct", "legacy", "htk" })));
+        if (vh_chance(r, 0.3)) vh_sb_printf(out, ", \"doublebw\": true");
+        if (vh_chance(r, 0.3)) vh_sb_printf(out, ", \"round_filters\": %s", vh_chance(r, 0.5) ? "true" : "false");
+        if (vh_chance(r, 0.2)) vh_sb_printf(out, ", \"logspec\": true");
+        if (vh_chance(r, 0.2)) vh_sb_printf(out, ", \"remove_noise\": false");
+        if (vh_chance(r, 0.2)) vh_sb_printf(out, ", \"feat\": \"%s\", \"ceplen\": %d", VH_PICK(r, ((const char *[]){ "1s_c_d_dd", "s2_4x", "cep", "1s_3c", "13,13:2", "1s_c_d_ld_dd" })), vh_chance(r, 0.5) ? 13 : ncep);
+        vh_sb_printf(out, "}");
+        return;
+    }
     if (vh_chance(r, 0.06)) {                             /* unstructured bytes */
         int n = vh_range(r, 0, 300); vh_sb_reset(out); for (k = 0; k < n; ++k) vh_sb_putc(out, (int)vh_below(r, 256)); return;
     }
@@ -227,8 +247,8 @@ static void run_target(int t, const char *in, size_t n, vh_rng *r)
                 config_set_str(cf, "loglevel", "FATAL"); config_set_str(cf, "lda", NULL);
                 vh_ctx("fe_init"); fe = fe_init(cf);
                 if (fe) {
-                    int16 buf[1200], *pp = buf; size_t ns = 1200; int q, osz, room = 16; mfcc_t **cep;
-                    for (q = 0; q < 1200; ++q) buf[q] = (int16)vh_range(r, -8000, 8000);
+                    static int16 buf[9000]; int16 *pp = buf; size_t ns = 9000; int q, osz, room = 16; mfcc_t **cep;   /* longer than any window the FFT limit allows plus one shift */
+                    for (q = 0; q < 9000; ++q) buf[q] = (int16)vh_range(r, -8000, 8000);
                     osz = fe_get_output_size(fe);
                     if (osz > 0 && osz < 4096) {
                         cep = (mfcc_t **)ckd_calloc_2d(room, (size_t)osz, sizeof(mfcc_t));
